@@ -790,14 +790,6 @@ structure Block where
   term : Inst
   deriving Inhabited
 
-structure Func where
-  ret : Ty
-  name : Bytes
-  params : List (Ty × Ident)
-  blocks : List Block
-  /-- the optional keywords in front of the return type (`define internal dso_local hidden fastcc T @f(…)`), as positions in `kLead`, in the order written -/
-  lead : List Nat := []
-
 /-! the keywords a function header may carry in front of its return type, family by family in the order the grammar fixes (ir/func.go LLString; the spellings are
     those of the regenerated enum table: `Props/C18Header.lean` checks that) -/
 /-- enum.Linkage -/
@@ -876,6 +868,145 @@ def kCallingConv : List Bytes :=
 
 def kLead : List Bytes := kLinkage ++ kPreemption ++ kVisibility ++ kDLL ++ kCallingConv
 
+/-! the clauses of a function header BEHIND the parameter list (ir/func.go headerString): `unnamed_addr` / `local_unnamed_addr`, `addrspace(N)`, the function attributes
+    that are bare keywords, `section "s"`, `partition "p"`, `align N`, `gc "g"` — each preceded by one space -/
+
+/-- enum.UnnamedAddr -/
+def kUnnamed : List Bytes := [[117, 110, 110, 97, 109, 101, 100, 95, 97, 100, 100, 114], [108, 111, 99, 97, 108, 95, 117, 110, 110, 97, 109, 101, 100, 95, 97, 100, 100, 114]]
+/-- enum.FuncAttr: the function attributes that are bare keywords -/
+def kFuncAttr : List Bytes :=
+  [[97, 108, 119, 97, 121, 115, 105, 110, 108, 105, 110, 101],
+   [97, 114, 103, 109, 101, 109, 111, 110, 108, 121],
+   [98, 117, 105, 108, 116, 105, 110],
+   [99, 111, 108, 100],
+   [99, 111, 110, 118, 101, 114, 103, 101, 110, 116],
+   [100, 105, 115, 97, 98, 108, 101, 95, 115, 97, 110, 105, 116, 105, 122, 101, 114, 95, 105, 110, 115, 116, 114, 117, 109, 101, 110, 116, 97, 116, 105, 111, 110],
+   [102, 110, 95, 114, 101, 116, 95, 116, 104, 117, 110, 107, 95, 101, 120, 116, 101, 114, 110],
+   [104, 111, 116],
+   [105, 110, 97, 99, 99, 101, 115, 115, 105, 98, 108, 101, 109, 101, 109, 111, 110, 108, 121],
+   [105, 110, 97, 99, 99, 101, 115, 115, 105, 98, 108, 101, 109, 101, 109, 95, 111, 114, 95, 97, 114, 103, 109, 101, 109, 111, 110, 108, 121],
+   [105, 110, 108, 105, 110, 101, 104, 105, 110, 116],
+   [106, 117, 109, 112, 116, 97, 98, 108, 101],
+   [109, 105, 110, 115, 105, 122, 101],
+   [109, 117, 115, 116, 112, 114, 111, 103, 114, 101, 115, 115],
+   [110, 97, 107, 101, 100],
+   [110, 111, 98, 117, 105, 108, 116, 105, 110],
+   [110, 111, 99, 102, 95, 99, 104, 101, 99, 107],
+   [110, 111, 99, 97, 108, 108, 98, 97, 99, 107],
+   [110, 111, 100, 117, 112, 108, 105, 99, 97, 116, 101],
+   [110, 111, 102, 114, 101, 101],
+   [110, 111, 105, 109, 112, 108, 105, 99, 105, 116, 102, 108, 111, 97, 116],
+   [110, 111, 105, 110, 108, 105, 110, 101],
+   [110, 111, 109, 101, 114, 103, 101],
+   [110, 111, 112, 114, 111, 102, 105, 108, 101],
+   [110, 111, 114, 101, 99, 117, 114, 115, 101],
+   [110, 111, 114, 101, 100, 122, 111, 110, 101],
+   [110, 111, 114, 101, 116, 117, 114, 110],
+   [110, 111, 115, 97, 110, 105, 116, 105, 122, 101, 95, 98, 111, 117, 110, 100, 115],
+   [110, 111, 115, 97, 110, 105, 116, 105, 122, 101, 95, 99, 111, 118, 101, 114, 97, 103, 101],
+   [110, 111, 115, 121, 110, 99],
+   [110, 111, 117, 110, 119, 105, 110, 100],
+   [110, 111, 110, 108, 97, 122, 121, 98, 105, 110, 100],
+   [110, 117, 108, 108, 95, 112, 111, 105, 110, 116, 101, 114, 95, 105, 115, 95, 118, 97, 108, 105, 100],
+   [111, 112, 116, 102, 111, 114, 102, 117, 122, 122, 105, 110, 103],
+   [111, 112, 116, 110, 111, 110, 101],
+   [111, 112, 116, 115, 105, 122, 101],
+   [112, 114, 101, 115, 112, 108, 105, 116, 99, 111, 114, 111, 117, 116, 105, 110, 101],
+   [114, 101, 97, 100, 110, 111, 110, 101],
+   [114, 101, 97, 100, 111, 110, 108, 121],
+   [114, 101, 116, 117, 114, 110, 115, 95, 116, 119, 105, 99, 101],
+   [115, 115, 112],
+   [115, 115, 112, 114, 101, 113],
+   [115, 115, 112, 115, 116, 114, 111, 110, 103],
+   [115, 97, 102, 101, 115, 116, 97, 99, 107],
+   [115, 97, 110, 105, 116, 105, 122, 101, 95, 97, 100, 100, 114, 101, 115, 115],
+   [115, 97, 110, 105, 116, 105, 122, 101, 95, 104, 119, 97, 100, 100, 114, 101, 115, 115],
+   [115, 97, 110, 105, 116, 105, 122, 101, 95, 109, 101, 109, 116, 97, 103],
+   [115, 97, 110, 105, 116, 105, 122, 101, 95, 109, 101, 109, 111, 114, 121],
+   [115, 97, 110, 105, 116, 105, 122, 101, 95, 116, 104, 114, 101, 97, 100],
+   [115, 104, 97, 100, 111, 119, 99, 97, 108, 108, 115, 116, 97, 99, 107],
+   [115, 112, 101, 99, 117, 108, 97, 116, 97, 98, 108, 101],
+   [115, 112, 101, 99, 117, 108, 97, 116, 105, 118, 101, 95, 108, 111, 97, 100, 95, 104, 97, 114, 100, 101, 110, 105, 110, 103],
+   [115, 116, 114, 105, 99, 116, 102, 112],
+   [117, 119, 116, 97, 98, 108, 101],
+   [119, 105, 108, 108, 114, 101, 116, 117, 114, 110],
+   [119, 114, 105, 116, 101, 111, 110, 108, 121]]
+def kTail : List Bytes := kUnnamed ++ kFuncAttr
+/-- the clauses that carry a quoted string -/
+def kStr : List Bytes := [[115, 101, 99, 116, 105, 111, 110], [112, 97, 114, 116, 105, 116, 105, 111, 110], [103, 99]]
+def sAddrspaceOpen : Bytes := [97, 100, 100, 114, 115, 112, 97, 99, 101, 40]
+def sAlignSp : Bytes := [97, 108, 105, 103, 110, 32]
+
+inductive HItem where
+  | kw (i : Nat)                       -- position in `kTail`
+  | addrspace (n : Nat)
+  | str (which : Nat) (s : Bytes)      -- position in `kStr`, the string
+  | align (n : Nat)
+  deriving DecidableEq, Repr, Inhabited
+
+def itemString : HItem → Bytes
+  | .kw i => kTail.getD i []
+  | .addrspace n => sAddrspaceOpen ++ natDec n ++ [41]
+  | .str w s => kStr.getD w [] ++ [32] ++ Enc.quote s
+  | .align n => sAlignSp ++ natDec n
+
+/-- every clause followed by one space (the first one is preceded by the space behind the closing parenthesis) -/
+def itemsString : List HItem → Bytes
+  | [] => []
+  | it :: its => itemString it ++ [32] ++ itemsString its
+
+/-- the clauses as the IR holds them (the fields of ir.Func): `unnamed` = position in `kUnnamed`; `attrs` = positions in `kFuncAttr`, in the order written; an
+    address space / alignment of 0 and an empty string are not printed -/
+structure HTail where
+  unnamed : Option Nat := none
+  addrspace : Nat := 0
+  attrs : List Nat := []
+  sect : Bytes := []
+  partition : Bytes := []
+  align : Nat := 0
+  gc : Bytes := []
+  deriving DecidableEq, Repr, Inhabited
+
+/-- the clauses in the order the printer writes them (ir/func.go headerString) -/
+def unnamedItems : Option Nat → List HItem
+  | some i => [.kw i]
+  | none => []
+/-- a clause that is printed unless its field has the zero value -/
+def optItem (absent : Bool) (it : HItem) : List HItem := if absent then [] else [it]
+
+def itemsOf (t : HTail) : List HItem :=
+  unnamedItems t.unnamed ++ (optItem (t.addrspace == 0) (.addrspace t.addrspace) ++ (t.attrs.map (fun i => .kw (i + 2)) ++
+    (optItem t.sect.isEmpty (.str 0 t.sect) ++ (optItem t.partition.isEmpty (.str 1 t.partition) ++ (optItem (t.align == 0) (.align t.align) ++
+      optItem t.gc.isEmpty (.str 2 t.gc))))))
+
+/-- one clause as the translation takes it (asm/global.go irFuncHeader; the grammar has `unnamed_addr` and `addrspace(N)` first, in this order and at most once;
+    the other clauses come in any order and a repeated `section` / `partition` / `align` / `gc` overwrites the earlier one): (phase, fields so far) -/
+def applyItem (st : Nat × HTail) (it : HItem) : Option (Nat × HTail) :=
+  match it with
+  | .kw i =>
+    if i < 2 then (if st.1 == 0 then some (1, { st.2 with unnamed := some i }) else none)
+    else if i < kTail.length then some (2, { st.2 with attrs := st.2.attrs ++ [i - 2] })
+    else none
+  | .addrspace n => if st.1 ≤ 1 && decide (n < 2 ^ 64) then some (2, { st.2 with addrspace := n }) else none
+  | .str 0 s => some (2, { st.2 with sect := s })
+  | .str 1 s => some (2, { st.2 with partition := s })
+  | .str 2 s => some (2, { st.2 with gc := s })
+  | .str _ _ => none
+  | .align n => if n < 2 ^ 64 then some (2, { st.2 with align := n }) else none
+
+def foldItems (its : List HItem) : Option HTail := (its.foldlM applyItem (0, {})).map (·.2)
+
+structure Func where
+  ret : Ty
+  name : Bytes
+  params : List (Ty × Ident)
+  blocks : List Block
+  /-- the optional keywords in front of the return type (`define internal dso_local hidden fastcc T @f(…)`), as positions in `kLead`, in the order written -/
+  lead : List Nat := []
+  /-- the clauses behind the parameter list (`… @f(…) unnamed_addr addrspace(1) nounwind section "s" align 8 gc "g" {`), in the order written -/
+  tail : HTail := {}
+
+
 /-- the family a position of `kLead` belongs to: linkage 0, preemption 1, visibility 2, DLL storage class 3, calling convention 4 -/
 def leadFamily (i : Nat) : Nat :=
   if i < kLinkage.length then 0
@@ -893,7 +1024,8 @@ def paramsString : List (Ty × Ident) → Bytes
   | (t, i) :: p :: ps => tyString t ++ [32] ++ identString i ++ sComma ++ paramsString (p :: ps)
 
 /-- the header from the return type on -/
-def headerRest (f : Func) : Bytes := tyString f.ret ++ [32] ++ Enc.globalName f.name ++ [40] ++ paramsString f.params ++ sOpen
+def headerRest (f : Func) : Bytes :=
+  tyString f.ret ++ [32] ++ Enc.globalName f.name ++ [40] ++ paramsString f.params ++ [41, 32] ++ itemsString (itemsOf f.tail) ++ [123]
 
 def headerString (f : Func) : Bytes := sDefine ++ flagsString kLead f.lead ++ headerRest f
 
@@ -944,9 +1076,14 @@ def blocksLines (useHex : Int → Bool) : List Block → List Bytes
 
 def sDeclare : Bytes := [100, 101, 99, 108, 97, 114, 101, 32]     -- "declare "
 
+/-- the clauses of a declaration: each preceded by a space, nothing behind the last one -/
+def tailDecl : List HItem → Bytes
+  | [] => []
+  | it :: its => 32 :: itemString it ++ tailDecl its
+
 /-- a function without blocks is a declaration (ir/func.go LLString): one line, the parameters with their names -/
 def declString (f : Func) : Bytes :=
-  sDeclare ++ flagsString kLead f.lead ++ tyString f.ret ++ [32] ++ Enc.globalName f.name ++ [40] ++ paramsString f.params ++ [41]
+  sDeclare ++ flagsString kLead f.lead ++ tyString f.ret ++ [32] ++ Enc.globalName f.name ++ [40] ++ paramsString f.params ++ [41] ++ tailDecl (itemsOf f.tail)
 
 def printFunc (useHex : Int → Bool) (f : Func) : List Bytes :=
   if f.blocks.isEmpty then [declString f]
@@ -974,8 +1111,46 @@ def readParams : Nat → Bytes → Option (List (Ty × Ident) × Bytes)
        | none => none)
     | _ => none
 
-/-- `define [keywords] T @name(params) {`: (keywords as written, return type, name, parameters) -/
-def readHeader (s : Bytes) : Option (List Nat × Ty × Bytes × List (Ty × Ident)) :=
+/-- a clause that carries a quoted string: `section "…"`, `partition "…"`, `gc "…"` followed by a space -/
+def readStrItem : Nat → List Bytes → Bytes → Option (HItem × Bytes)
+  | _, [], _ => none
+  | w, k :: ks, s =>
+    match TyParse.stripPrefix (k ++ [32, 34]) s with
+    | some q =>
+      (match q.dropWhile (· != 34) with
+       | 34 :: 32 :: r => some (.str w (Enc.unescape (q.takeWhile (· != 34))), r)
+       | _ => none)
+    | none => readStrItem (w + 1) ks s
+
+/-- one clause and the space behind it -/
+def readItem (s : Bytes) : Option (HItem × Bytes) :=
+  match findFlag 0 kTail s with
+  | some (i, r) => some (.kw i, r)
+  | none =>
+    match TyParse.stripPrefix sAddrspaceOpen s with
+    | some r => (match TyParse.readNat r with | some (n, 41 :: 32 :: r') => some (.addrspace n, r') | _ => none)
+    | none =>
+      match TyParse.stripPrefix sAlignSp s with
+      | some r => (match TyParse.readNat r with | some (n, 32 :: r') => some (.align n, r') | _ => none)
+      | none => readStrItem 0 kStr s
+
+/-- the clauses up to the opening brace -/
+def readItems : Nat → Bytes → Option (List HItem × Bytes)
+  | 0, _ => none
+  | f + 1, s =>
+    if s.head? == some 123 then some ([], s)
+    else match readItem s with
+      | some (it, r) => (match readItems f r with | some (its, r') => some (it :: its, r') | none => none)
+      | none => none
+
+/-- `) clauses {` behind the parameters -/
+def readTail (s : Bytes) : Option HTail :=
+  match s with
+  | 41 :: 32 :: r => (match readItems (r.length + 1) r with | some (its, [123]) => foldItems its | _ => none)
+  | _ => none
+
+/-- `define [keywords] T @name(params) [clauses] {`: (keywords as written, return type, name, parameters, clauses as written) -/
+def readHeader (s : Bytes) : Option (List Nat × Ty × Bytes × List (Ty × Ident) × HTail) :=
   match TyParse.stripPrefix sDefine s with
   | none => none
   | some r00 =>
@@ -986,9 +1161,9 @@ def readHeader (s : Bytes) : Option (List Nat × Ty × Bytes × List (Ty × Iden
        | some (tok, 40 :: r2) =>
          (match Enc.decodeIdentBody tok with
           | .name n =>
-            if r2.head? == some 41 then (if r2 == sOpen then some (lead, rt, n, []) else none)
+            if r2.head? == some 41 then (match readTail r2 with | some tl => some (lead, rt, n, [], tl) | none => none)
             else (match readParams (r2.length + 1) r2 with
-                  | some (ps, r3) => if r3 == sOpen then some (lead, rt, n, ps) else none
+                  | some (ps, r3) => (match readTail r3 with | some tl => some (lead, rt, n, ps, tl) | none => none)
                   | none => none)
           | .id _ => none)
        | _ => none)
@@ -1130,7 +1305,7 @@ def readBlocks : Nat → List Bytes → Option (List Block)
            | none => none)
 
 /-- `declare T @f(params)`: read as the header of a definition -/
-def readDecl (s : Bytes) : Option (List Nat × Ty × Bytes × List (Ty × Ident)) :=
+def readDecl (s : Bytes) : Option (List Nat × Ty × Bytes × List (Ty × Ident) × HTail) :=
   match TyParse.stripPrefix sDeclare s with
   | some r => readHeader (sDefine ++ r ++ [32, 123])
   | none => none
@@ -1138,10 +1313,10 @@ def readDecl (s : Bytes) : Option (List Nat × Ty × Bytes × List (Ty × Ident)
 def readFunc (ls : List Bytes) : Option Func :=
   match ls with
   | [] => none
-  | [h] => (match readDecl h with | some (lead, rt, n, ps) => some ⟨rt, n, ps, [], lead⟩ | none => none)
+  | [h] => (match readDecl h with | some (lead, rt, n, ps, tl) => some ⟨rt, n, ps, [], lead, tl⟩ | none => none)
   | h :: rest =>
     match readHeader h, readBlocks (rest.length + 1) rest with
-    | some (lead, rt, n, ps), some bs => some ⟨rt, n, ps, bs, lead⟩
+    | some (lead, rt, n, ps, tl), some bs => some ⟨rt, n, ps, bs, lead, tl⟩
     | _, _ => none
 
 /-! ### translation (asm/local.go) -/
@@ -1503,8 +1678,8 @@ theorem translateIn_core (ge : GEnv) (f g : Func) (h : translateIn ge f = some g
 theorem translateIn_none_of_core (ge : GEnv) (f : Func) (h : translateCore ge f = none) : translateIn ge f = none := by
   unfold translateIn; split <;> simp [h]
 
-/-- the type of a reference to a function: pointer to its signature (ir/func.go Type) -/
-def funcRefTy (f : Func) : Ty := .ptr (.func f.ret (TyList.ofList (f.params.map (·.1))) false) 0
+/-- the type of a reference to a function: pointer to its signature in the address space of the function (ir/func.go Type) -/
+def funcRefTy (f : Func) : Ty := .ptr (.func f.ret (TyList.ofList (f.params.map (·.1))) false) f.tail.addrspace
 
 /-- a function definition on its own: the only global is the function itself -/
 def selfEnv (f : Func) : GEnv := [(f.name, funcRefTy f)]
@@ -1617,11 +1792,16 @@ def instOKB (i : Inst) : Bool :=
 def blockOKB (b : Block) : Bool :=
   identOKB b.label && b.insts.all (fun i => instOKB i && !isTerm i) && instOKB b.term && isTerm b.term
 
+/-- the clause fields are within the parser's ranges -/
+def tailOK (t : HTail) : Bool :=
+  (match t.unnamed with | some i => decide (i < 2) | none => true) && decide (t.addrspace < 2 ^ 64) && t.attrs.all (fun i => decide (i < kFuncAttr.length)) &&
+    decide (t.align < 2 ^ 64)
+
 /-- syntactic well-formedness: non-empty names, IDs within the parser's range, arguments matching the rows, one terminator per block (last) -/
 def wfSyn (f : Func) : Bool :=
   !f.name.isEmpty && f.params.all (fun p => identOKB p.2) && f.blocks.all blockOKB && leadOK f.lead &&
   -- (no header keyword followed by a space starts the text of the return type: decidable side condition of the reader of the keywords)
-  kLead.all (fun k => (TyParse.stripPrefix (k ++ [32]) (headerRest f)).isNone)
+  kLead.all (fun k => (TyParse.stripPrefix (k ++ [32]) (headerRest f)).isNone) && tailOK f.tail
 
 /-- the type written in front of every local operand is the type of that operand's definition -/
 def consistentOp (ge : GEnv) (e : List (Ident × Ty)) (t : Ty) : Operand → Bool
